@@ -17,6 +17,7 @@ RULE = ("every game class (G-ACY/G-CYC/G-SLOW/G-DEAD/G-TIE/G-TIEC/G-LEX/G-TINY s
         "within tol(g)+tol(g'), strategies up to the renaming at states whose competing successors are exactly tied or separated, "
         "diagnostics [6],[7].  Non-trivial: the transform changed an iteration count or the order in which a dead successor / tie is met "
         "(different n_iterations or different raw float vectors); distinct = (game hash, transform).")
+RULE += (' Also (rounds 5-6): G-GAP/G-GAPLOOP (values 1e-9..1e-4 apart around the 6-digit resolution), G-CORR, G-BIGR, G-DIGIT (digit-only / ambiguous action names), G-RETRY (cycles through state 0), G-FINREP (final states listed repeatedly, as list or tuple); a seventh of the solves pass the pruning flag as the int 1/0; an eighth of the batches each run with the root logger at DEBUG, under python -O, and with warnings raised on behalf of the repository turned into errors. Transforms digit_labels and blank_labels (names differing only in white space).')
 FLOOR = 300
 REQUIRED = ["solve.ok"]
 ASSUMPTIONS = ["tol(.) = 1e-6*T_max(s) + eps per presentation (exact oracle); pairs whose T is unavailable contribute only flag and separated-state strategy comparisons",
